@@ -44,6 +44,10 @@ MENUS = {
     # p is bound in a try body after a statement that raises (so it is really unbound afterwards, no placeholder), then used
     # as the base of a composite inside control flow; programs are the fixed prefix + every block of the menu (see programs())
     'trybind': M('trybind', ('SUBPA', 'RSUB'), ('if', 'while', 'for'), for_targets=('i',)),
+    # a return whose expression raises KeyError, caught by a handler of the same function (nothing assigned in between)
+    'retraise': M('retraise', ('RETK', 'RW', 'R'), ('tryK', 'if', 'while'), vars_=('x',), ret=('x',)),
+    # subscript store whose index is a plain name first bound in the same block
+    'nameidx': M('nameidx', ('BINDJ', 'SUBJ', 'RSUB'), ('if', 'while', 'for'), for_targets=('i',)),
     # nested / starred loop targets
     'targets': M('targets', ('RW', 'R', 'brk'), ('if', 'for'), for_targets=('nest', 'star'), ret=('x',)),
     'glob': M('glob', ('W', 'RW', 'R', 'brk', 'ret'), ('if', 'while', 'for'), vars_=('G',), for_targets=('i', 'G'), ret=('G',)),
@@ -83,6 +87,8 @@ PLAN = {
         ('targets', 3, (('x', 'y'),), (('x', 'y'), ())),
         ('compidx', 4, ((),), ((),)),
         ('trybind', 3, ((),), ((),)),
+        ('retraise', 4, (('x',),), (('x',),)),
+        ('nameidx', 4, ((),), ((),)),
     ],
     'thorough': [
         ('core', 3, ALL_PRO, ALL_EPI),
@@ -101,6 +107,8 @@ PLAN = {
         ('targets', 4, (('x', 'y'), ()), (('x', 'y'), ())),
         ('compidx', 5, ((),), ((),)),
         ('trybind', 4, ((),), ((),)),
+        ('retraise', 5, (('x',),), (('x',),)),
+        ('nameidx', 5, ((),), ((),)),
     ],
 }
 CAP = {'quick': 6, 'thorough': 7}
@@ -125,6 +133,8 @@ def _reads_p_before_binding_it(body):
   """compidx menu: `p` is local as soon as the function binds it anywhere; a subscript store through p that textually
   precedes the first binding would raise UnboundLocalError whenever it runs - such programs are not generated."""
   ks = list(_preorder_kinds(body))
+  if 'BINDJ' in ks and 'SUBJ' in ks[:ks.index('BINDJ')]:
+    return True
   return 'BINDP' in ks and any(k in ('SUBPA', 'SUBPI') for k in ks[:ks.index('BINDP')])
 
 
@@ -135,7 +145,7 @@ def programs(tier, plan=None):
     menu = MENUS[name]
     for n in range(1, maxn + 1):
       for body in ps.blocks(n, menu):
-        if name == 'compidx' and _reads_p_before_binding_it(body):
+        if name in ('compidx', 'nameidx') and _reads_p_before_binding_it(body):
           continue
         if name == 'trybind':
           body = (('try', (('raise',), ('BINDP',)), (('PASS',),), None),) + body
